@@ -1589,3 +1589,21 @@ func replayCorr(ctx *Ctx, res *Result) {
 		res.Disagree(cc.Stream, cc, "see the recorded disagreement", "")
 	}
 }
+
+// panicKind maps a panic message of a real function onto the model's panic names (correspondence only;
+// the oracle takes the kind from the panic value, see panicClass in worker.go).
+func panicKind(msg string) string {
+	switch {
+	case strings.Contains(msg, "index out of range"):
+		return "index"
+	case strings.Contains(msg, "slice bounds out of range"):
+		return "slice"
+	case strings.Contains(msg, "nil pointer dereference"):
+		return "nil"
+	case strings.Contains(msg, "interface conversion"):
+		return "typeassert"
+	case strings.Contains(msg, "runtime error"):
+		return "runtime-other"
+	}
+	return "explicit"
+}
